@@ -2,7 +2,7 @@
 Driver for C11: one workspace + target list per line, one result per line.
 Strings are lower-case hex (`-` = empty string).
 
-  run dirs=<L> bf=<files> src=<L> t=<L> [bad=<L>] [t2=<L>] [t3=<L>] [wd=<s>] [ar=1]     (wd: work dir of the builder under <root>/src;     (ar: Config.AlwaysRebuild on the implementation side; the model has no cache)
+  run dirs=<L> bf=<files> src=<L> t=<L> [sp=<L>] [bad=<L>] [t2=<L>] [t3=<L>] [wd=<s>] [ar=1]     (wd: work dir of the builder under <root>/src;     (ar: Config.AlwaysRebuild on the implementation side; the model has no cache)
 
   <L>      comma separated strings, `.` = empty list
   <files>  `;` separated `<dir>:<decls>`, `.` = no build file at all
@@ -83,7 +83,10 @@ def step (_ : Unit) (line : String) : Unit × String :=
     | "run" :: rest =>
       match (kv rest "dirs").bind (parseList ","), (kv rest "bf").bind parseFiles,
             (kv rest "src").bind (parseList ","), (kv rest "t").bind (parseList ",") with
-      | some dirs, some files, some srcs, some ts =>
+      | some dirs, some files, some srcs0, some ts =>
+        -- sp=: things under src that are not regular files; only symlinks (l:) count as source files
+        let sp := ((kv rest "sp").bind (parseList ",")).getD []
+        let srcs := srcs0 ++ sp.filterMap (fun x => if x.take 2 = "l:".toList then some (x.drop 2) else none)
         let wd := ((kv rest "wd").bind parseS).getD []
         -- further Build calls on the same Builder (t2, t3): every call is judged on its own
         let calls := ts :: ([kv rest "t2", kv rest "t3"].filterMap (fun o => o.bind (parseList ",")))
